@@ -382,3 +382,140 @@ func hashOf(P *core.Program, v ssa.Value, leaf func(ssa.Value) bool, seen map[ss
 	}
 	return false
 }
+
+// ---------------------------------------------------------------------------
+// R80: computed metadata fields are baked from final values.
+//
+// C09 / C10: "each item's metadata equals what a metadata GET returns", "the
+// generation/metageneration reported … always agree".  InitMetaWithUrls computes
+// the derived fields of an object record (links, size, and whatever a later
+// feature derives from generation / metageneration: an etag) from the record's
+// other fields.  A caller that assigns one of the fields the baking function
+// *reads* only after it has called it — filestore.ReadMeta sets Generation from
+// the file's mtime after baking — publishes derived fields computed from the stale
+// value stored in the sidecar (0 for every upload), while the memory store bakes
+// from the final value: the stores disagree and the derived field never changes on
+// overwrite.  Structural necessary condition: after a call of the baking function
+// on object o, no field of o that the baking function (transitively) reads is
+// assigned in the same function.
+// ---------------------------------------------------------------------------
+
+func fieldsReadThrough(P *core.Program, fn *ssa.Function, param *ssa.Parameter, seen map[*ssa.Function]bool, out map[string]bool) {
+	if fn == nil || fn.Blocks == nil || seen[fn] {
+		return
+	}
+	seen[fn] = true
+	derived := map[ssa.Value]bool{param: true}
+	for changed := true; changed; {
+		changed = false
+		for _, b := range fn.Blocks {
+			for _, in := range b.Instrs {
+				switch x := in.(type) {
+				case *ssa.UnOp:
+					if x.Op == token.MUL {
+						if fa, ok := x.X.(*ssa.FieldAddr); ok && derived[fa.X] {
+							if _, f, ok := core.FieldName(fa); ok && !out[f] {
+								out[f] = true
+								changed = true
+							}
+						}
+					}
+				case *ssa.Phi:
+					for _, e := range x.Edges {
+						if derived[e] && !derived[x] {
+							derived[x] = true
+							changed = true
+						}
+					}
+				case ssa.CallInstruction:
+					callee := x.Common().StaticCallee()
+					if callee == nil || callee.Blocks == nil || P.SPkgs[core.PkgPathOf(callee)] == nil {
+						continue
+					}
+					for i, a := range x.Common().Args {
+						if derived[a] && i < len(callee.Params) {
+							before := len(out)
+							fieldsReadThrough(P, callee, callee.Params[i], seen, out)
+							if len(out) != before {
+								changed = true
+							}
+						}
+					}
+				}
+			}
+		}
+	}
+}
+
+func R80() Rule {
+	return Rule{Name: "R80", Run: func(c *core.Ctx) {
+		P := c.P
+		if P.SPkgs[core.PkgGcsemu] == nil {
+			return
+		}
+		bake := P.MustFunc(core.PkgGcsemu, "InitMetaWithUrls")
+		var metaParam *ssa.Parameter
+		for _, p := range bake.Params {
+			if nm := core.NamedOf(p.Type()); nm != nil && nm.Obj().Name() == "Object" && isPtr(p.Type()) {
+				metaParam = p
+			}
+		}
+		if metaParam == nil {
+			c.Unknown("R80", "InitMetaWithUrls/meta-parameter", bake.Pos(), "the baking function has no *storage.Object parameter")
+			return
+		}
+		reads := map[string]bool{}
+		fieldsReadThrough(P, bake, metaParam, map[*ssa.Function]bool{}, reads)
+		mi := 0
+		for i, p := range bake.Params {
+			if p == metaParam {
+				mi = i
+			}
+		}
+		nl := nilness(P)
+		n := 0
+		for _, fn := range P.SrcFuncs(core.PkgGcsemu) {
+			k := 0
+			for _, ci := range core.AllCalls(fn) {
+				call, ok := ci.Instr.(*ssa.Call)
+				if !ok || ci.Static != bake || mi >= len(call.Call.Args) {
+					continue
+				}
+				n++
+				k++
+				c.Fn(core.FuncName(core.Root(fn)))
+				obj := call.Call.Args[mi]
+				construct := fmt.Sprintf("%s/bake#%d/inputs-final", core.FuncName(core.Root(fn)), k)
+				var bad *ssa.Store
+				badField := ""
+				for _, b := range fn.Blocks {
+					for _, in := range b.Instrs {
+						st, ok := in.(*ssa.Store)
+						if !ok || !core.InstrReaches(call, st) {
+							continue
+						}
+						fa, ok := st.Addr.(*ssa.FieldAddr)
+						if !ok {
+							continue
+						}
+						_, f, _ := core.FieldName(fa)
+						if !reads[f] {
+							continue
+						}
+						if nl.resolveAt(fa.X) == nl.resolveAt(obj) || nl.same(fa.X, obj) {
+							bad, badField = st, f
+						}
+					}
+				}
+				if bad != nil {
+					c.Bad("R80", construct, bad.Pos(), "%s of the record is assigned after InitMetaWithUrls has been called on it, and the baking function reads %s to compute derived fields: what is published was computed from the stale value (in the file store: the one in the sidecar, 0 for every upload), so the derived field never changes on overwrite and differs from the memory store's", badField, badField)
+				} else {
+					c.Ok("R80", construct, call.Pos(), true, "no field the baking function reads (%d) is assigned after the call", len(reads))
+				}
+			}
+		}
+		if n < 2 {
+			c.Unknown("R80", "floor/bake-sites", token.NoPos, "only %d calls of InitMetaWithUrls found", n)
+		}
+	}}
+}
